@@ -261,6 +261,27 @@ class VModule(V):
         self.name = name
 
 
+class VMap(V):
+    """general dict: heap-resident map from key ids to opaque value ids (dom / val arrays)"""
+    __slots__ = ('t',)
+    kind = 'map'
+
+    def __init__(self, t):
+        self.t = t
+
+    def __repr__(self):
+        return 'VMap(%s)' % self.t
+
+
+class VKey(V):
+    "a key id bound by forall_keys() in a specification"
+    __slots__ = ('t',)
+    kind = 'key'
+
+    def __init__(self, t):
+        self.t = t
+
+
 class VConst(V):
     "module-level literal container (list / dict / tuple / set), assumed never mutated"
     __slots__ = ('py',)
@@ -331,6 +352,10 @@ def _merge_same(c0, v0, c, v):
         return VRef(v.cls, ITE(c, v.t, v0.t))
     if isinstance(v, VList) and v.elem == v0.elem:
         return VList(v.elem, ITE(c, v.t, v0.t))
+    if isinstance(v, VMap):
+        return VMap(ITE(c, v.t, v0.t))
+    if isinstance(v, VAny):
+        return VAny(ITE(c, v.t, v0.t))
     if isinstance(v, VFloat):
         return VFloat(ITE(c, v.t, v0.t))
     if isinstance(v, VTuple) and len(v.items) == len(v0.items):
